@@ -13,6 +13,15 @@ def gen_ser(tier, R):
     doubles = [0.0, -0.0, 1.0, -1.5, 0.1, 1e300, 5e-324, 2.2250738585072014e-308, 1.7976931348623157e308, 2.0**53, 2.0**53 + 2, 9007199254740993.0, 1e21, 1e-7, 123456.789, 4.35, 0.3,
                NAN, INF, -INF]
     lits = [num(x) for x in doubles] + [s(n) for n in names] + [b(True), b(False), arr(), arr(num(1.0), s('a'), arr(b(True), arr())), arr(num(NAN)), arr(arr(num(INF)))]
+    # every shape of (finite) array literal to depth 3 with 0..2 members per level: singletons of singletons, empty inside non-empty, mixed depths
+    def shapes(d):
+        base = [num(1.0), s('a')]
+        if d == 0:
+            return base[:1]
+        inner = shapes(d - 1)
+        out_ = [arr()] + [arr(x) for x in inner] + [arr(x, y) for x in inner[:4] for y in inner[:4]]
+        return base[:1] + out_
+    lits += [v for v in shapes(3) if v.startswith('(a')][:160]
     leaves = [f"(lit {v})" for v in lits] + [f"(var {s(n)})" for n in names] + [f"(call {s(n)})" for n in names[:4]]
     out = []
     for o in OPS:
